@@ -16,6 +16,16 @@ stored patch of every record is compared with Model/Metadata.v (determine + chun
 on the exact rational squared chords to the *reported* centres) and with the statement itself
 (own_centre_nearest: the reported centre of the storing patch is a nearest reported centre).
 
+Every creation route x every way to define the centres (the clause "its reported centres reproduce its own partition"): catalogs
+are created through from_random (BoxRandoms over several sky boxes incl. the poles, with / without weights and redshifts to draw from,
+one or many chunks, probe smaller than or equal to the sample), from_dataframe and from_file (Parquet, HDF5, FITS), sequentially and on
+3 simulated workers, with centres given as coordinates, given as a reference catalog (whose own centres are given ones or data means)
+or MADE by k-means (patch_num only: the oracle may return any centres, but the catalog must report the ones it split the records by),
+observed as created or reopened.  For every stored record the exact rational squared chords to the REPORTED centres are compared
+inside Coq with Model/Metadata.v (c12_route_case: nearest_rows = stored patch, own_centre_nearest), and a second catalog is built from
+the stored records with patch_centers=<the first catalog> (the catalog itself, reopened, or its get_centers()): it must report the
+same centres and store every record in the same patch.
+
 The guard with 2, 3 and 4 catalogs: scenes of catalogs over the same centres whose extents differ strongly
 (compact randoms, wide samples) and whose records-per-patch tuples put them at every place of the checking
 order (distinct levels, ties, a tuple that sorts first without having most records); one catalog (the
@@ -44,7 +54,10 @@ ALLOWED_AXIOMS = []
 TRUSTED = [
     "distances record->centre are the implementation's own AngularCoordinates.distance values (accuracy: C14); "
     "nearest-centre re-assignment uses exact rational squared chords of the implementation's unit vectors",
-    "treecorr k-means (patch_num mode) is an oracle: any centres are accepted",
+    "treecorr k-means (patch_num mode) is an oracle: any centres are accepted (route cases: whatever it returned, the centres the "
+    "catalog reports must be the ones the records were split by)",
+    "route cases: the records of a from_random catalog are the ones found in its patches (BoxRandoms draws them inside the call); a record of "
+    "the second catalog is identified with a stored record of the first by a unique dyadic redshift tag",
     "option cases: a stored record is identified with its input record by a unique dyadic redshift tag; "
     "input files are written with pandas/pyarrow, h5py and astropy (library behaviour)",
     "guard cases: 'the patch radius' of the statement is read as the radius of the reference catalog (the catalog with most "
@@ -58,6 +71,9 @@ RULE = ("cases = (patch mode, centre order, sizes incl. single-object patches, w
         "option cases = (given options, entry point/format, chunk size, workers + completion order, kind of index column, "
         "created or reopened catalog); non-trivial when more than one option is given and the column (if any) differs from the stored partition "
         "or another option had to be ignored; "
+        "route cases = (creation route / file format, centres given as coordinates / as a catalog / made from patch_num, generator box + seed + size "
+        "or records, chunk size, probe size, workers + completion order, created or reopened, what the second catalog is handed); non-trivial "
+        "when at least two patches hold records and some patch holds more than one; "
         "guard cases = (scene: centres, number of catalogs 2..4, extent and records-per-patch profile) x (which catalog is displaced / altered, "
         "how, by how many reference radii, which patches) x (entry point, roles / call order); non-trivial unless all catalogs are aligned")
 HEADER = "From Verif Require Import Prelude Metadata.\nOpen Scope Q_scope.\n"
@@ -367,8 +383,9 @@ BOXES = [(10.0, 12.0, -1.0, 1.0), (0.0, 3.0, -41.0, -38.0), (100.0, 160.0, 86.0,
 REFUSALS = ("contains no data", "do not match", "probe_size")
 
 
-def route_input(rng, route, mode):
-    """generator parameters (route 'random') or records (a data frame / file) + the patch-definition arguments"""
+def route_input(rng, route, mode, probe):
+    """generator parameters (route 'random') or records (a data frame / file) + the patch-definition arguments;
+    probe = 'part': the centres are made from a proper part of the input (they are not the data means of the patches), 'all': from all of it"""
     inp = dict(route=route, mode=mode)
     if route == "random":
         box = rng.choice(BOXES)
@@ -376,8 +393,8 @@ def route_input(rng, route, mode):
         inp.update(box=box, n=n, seed=rng.randrange(1, 10 ** 6), chunksize=rng.choice([None, None, 7, 16, n, n // 2 + 1]),
                    weights=rng.choice([None, [0.5, 1.0, 2.0, 0.25]]), redshifts=rng.choice([None, [0.2, 0.3, 0.7, 0.5]]))
         if mode == "num":
-            num = rng.choice([k for k in (2, 3, 4, 5) if 10 * k <= n])
-            inp.update(patch_num=num, probe_size=rng.choice([10 * num, 10 * num, max(10 * num, n // 2), n]))
+            num = rng.choice([k for k in (2, 3, 4, 5) if 10 * k < n])
+            inp.update(patch_num=num, probe_size=n if probe == "all" else rng.choice([10 * num, 10 * num, max(10 * num, n // 2)]))
         else:
             ncent = rng.choice([2, 3, 4, 5])
             fx = [(k + rng.uniform(0.2, 0.8)) / ncent for k in range(ncent)]
@@ -390,18 +407,19 @@ def route_input(rng, route, mode):
     spacing = rng.choice([0.5, 1.0, 3.0])
     cents = [offset(ra0, dec0, k * spacing, (k % 2) * spacing * 0.3) for k in range(ncent)]
     rng.shuffle(cents)
-    scatter = rng.choice([0.3, 0.3, 0.7])
+    # made centres: a field without gaps (the borders of the patches run through the data, so it matters which centres are reported)
+    scatter = rng.choice([0.3, 0.3, 0.7]) if mode != "num" else rng.choice([0.5, 0.7, 1.0])
     pts = []
     for k in range(ncent):
-        size = rng.choice([1, 2, 5, 9, 14]) if mode != "num" else rng.choice([5, 9, 14, 20])
+        size = rng.choice([1, 2, 5, 9, 14]) if mode != "num" else rng.choice([9, 14, 20, 30])
         pts += cluster(rng, cents[k][0], cents[k][1], 1, spacing * 0.05) + cluster(rng, cents[k][0], cents[k][1], size - 1, spacing * scatter)
     rng.shuffle(pts)
     n = len(pts)
     inp.update(pts=pts, n=n, chunksize=rng.choice([None, None, 3, 7, n, n + 5]),
                weights=[rng.randrange(1, 33) / 8.0 for _ in pts] if rng.random() < 0.5 else None)
     if mode == "num":
-        num = rng.choice([k for k in (2, 3, ncent) if 10 * k <= n] or [2])
-        inp.update(patch_num=num, probe_size=rng.choice([n, n, max(10 * num, n // 2)]))   # a probe that is / is not all of the input
+        num = rng.choice([k for k in (2, 3, ncent) if 10 * k < n] or [2])
+        inp.update(patch_num=num, probe_size=n if probe == "all" else rng.choice([max(10 * num, n // 2), max(10 * num, n // 3)]))
     else:
         inp.update(cents=cents)
     return inp
@@ -412,7 +430,8 @@ def route_case(ctx, rng, idx, spec, rterms, rmetas, terms, metas):
     (patch_num), and the catalog built from its stored records with patch_centers=<that catalog>"""
     from yaw.randoms import BoxRandoms
     route, mode, workers = spec["route"], spec["mode"], spec["workers"]
-    inp = route_input(rng, route, mode)
+    probe = (spec.get("probe") or rng.choice(["part", "part", "part", "all"])) if mode == "num" else None
+    inp = route_input(rng, route, mode, probe)
     n = inp["n"]
     observe = rng.choice(["created", "created", "reopened"])
     refkind = rng.choice(["centres", "name"]) if mode == "catalog" else None
@@ -422,7 +441,7 @@ def route_case(ctx, rng, idx, spec, rterms, rmetas, terms, metas):
     if inp["chunksize"] is not None:
         args["chunksize"] = inp["chunksize"]
     cid = ("route", idx)
-    kind = "route/%s/%s/%s/%s" % (route, mode, "seq" if workers == 1 else "par", observe)
+    kind = "route/%s/%s/%s/%s" % (route, mode if probe is None else "num-probe-" + probe, "seq" if workers == 1 else "par", observe)
     ref = cat = second = None
     sched = None
     try:
@@ -574,10 +593,11 @@ def run_routes(ctx, terms, metas):
     specs = []
     for mode in ["num", "centres", "catalog"]:                              # from_random has no patch_name
         for workers in [1, 3]:
-            specs.append(dict(route="random", mode=mode, workers=workers))
-    specs += [dict(route="random", mode="num", workers=1), dict(route="random", mode="num", workers=3)]
-    for route, workers in [("dataframe", 1), ("parquet", 3), ("hdf5", 1), ("fits", 3)]:
-        specs.append(dict(route=route, mode="num", workers=workers))
+            specs.append(dict(route="random", mode=mode, workers=workers, probe="part"))
+    specs += [dict(route="random", mode="num", workers=1, probe="part"), dict(route="random", mode="num", workers=3, probe="all")]
+    for route, workers in [("dataframe", 1), ("parquet", 3), ("hdf5", 1), ("fits", 3), ("dataframe", 3), ("parquet", 1)]:
+        specs.append(dict(route=route, mode="num", workers=workers, probe="part"))
+    specs.append(dict(route="hdf5", mode="num", workers=3, probe="all"))
     specs += [dict(route="dataframe", mode="catalog", workers=3), dict(route="parquet", mode="centres", workers=1),
               dict(route="fits", mode="catalog", workers=1)]
     for _ in range(ctx.n(5, 150)):
